@@ -3,6 +3,7 @@ import CifModel.Lemmas.LadderClone
 import CifModel.Lemmas.LadderNames
 import CifModel.Lemmas.LadderShape
 import CifModel.Lemmas.LadderPacket
+import CifModel.Lemmas.LadderDeser
 /-
   CifModel.Lemmas.LadderSummary — the ladder summaries specialised to a call that starts with an empty window
   (no request made yet, nothing live): the statements the property theorems of Props/C17 restate.
@@ -308,5 +309,29 @@ theorem packet_gen_summary (fixed : Bool) (k : Nat) (flags : List Bool) :
       exact ⟨h4.1, .inr rfl, by simp [OK_ne_MEMORY_ERROR], by simpa [OK_ne_MEMORY_ERROR] using b.2.2.1⟩
   · have b := bad_init h6
     exact ⟨⟨fun _ => ⟨h3, h4, by simpa using h5⟩, fun _ => h1⟩, fun _ => b.2.2.2.1, fun h => absurd h1 h⟩
+
+-- ---------------------------------------------------------------------------------------------------------------
+-- cif_value_deserialize
+
+theorem deser_outcome (k : Nat) (elems : List DShape) :
+    Good k (deserAllocs elems) {} (deserialize k elems).2.2 ∨ Bad k (deserAllocs elems) {} (deserialize k elems).2.2 := by
+  rcases deserialize_spec k elems {} [] Inv.nil with ⟨_, h⟩ | h
+  · exact .inl h.2.2.1
+  · exact .inr h.2.2.1
+
+theorem OK_ne_ERROR : ERROR ≠ OK := by decide
+
+theorem deser_summary (k : Nat) (elems : List DShape) :
+    Balanced (deserialize k elems).2.2.evs (match (deserialize k elems).2.1 with | some g => g | none => []) ∧
+    ((deserialize k elems).1 = OK ∨ (deserialize k elems).1 = ERROR) ∧
+    ((deserialize k elems).1 = OK ↔ (deserialize k elems).2.1.isSome) ∧
+    ((deserialize k elems).1 = OK ↔ NoFail (deserialize k elems).2.2.evs) := by
+  rcases deserialize_spec k elems {} [] Inv.nil with ⟨g, h1, h2, h3, h4⟩ | ⟨h1, h2, h3, h4⟩
+  · have g' := good_init h3
+    rw [h1, h2]
+    exact ⟨by simpa using h4.1, .inl rfl, by simp, by simpa using g'.2.2.1⟩
+  · have b := bad_init h3
+    rw [h1, h2]
+    exact ⟨h4.1, .inr rfl, by simp [OK_ne_ERROR], by simpa [OK_ne_ERROR] using b.2.2.1⟩
 
 end CifModel.Lemmas.Ladder
